@@ -179,13 +179,16 @@ static std::string Hex(const unsigned char *p, size_t n) {
   for (size_t i = 0; i < n; ++i) { s += d[p[i] >> 4]; s += d[p[i] & 15]; }
   return s;
 }
-// Exact-size heap copy: every out-of-bounds byte is visible to ASan.
+// Exact-size heap copy: every out-of-bounds byte is visible to ASan.  A zero-size allocation is
+// one accessible byte under ASan, so the empty buffer is the one-past-the-end pointer of a 1-byte
+// allocation: the first byte past every view is always redzone.
 struct Heap {
-  unsigned char *p; size_t n;
-  explicit Heap(const std::vector<unsigned char> &v) : p(new unsigned char[v.size()]), n(v.size()) {
+  unsigned char *base; unsigned char *p; size_t n;
+  explicit Heap(const std::vector<unsigned char> &v)
+      : base(new unsigned char[v.size() ? v.size() : 1]), p(v.size() ? base : base + 1), n(v.size()) {
     if (n) memcpy(p, v.data(), n);
   }
-  ~Heap() { delete[] p; }
+  ~Heap() { delete[] base; }
 };
 template <class T> typename std::enable_if<std::is_same<T, bool>::value>::type PrintVal(Out &o, T x) { o << (x ? 1 : 0); }
 template <class T> typename std::enable_if<std::is_enum<T>::value>::type PrintVal(Out &o, T x) {
